@@ -478,6 +478,8 @@ class Program:
                 return all(simple(e) for e in v.elts)
             if isinstance(v, ast.Call) and dotted(v.func) == "float" and len(v.args) == 1 and isinstance(v.args[0], ast.Constant) and not v.keywords:
                 return True
+            if isinstance(v, ast.Call) and dotted(v.func) in ("frozenset", "tuple") and not v.args and not v.keywords:
+                return True  # an empty immutable container
             if isinstance(v, ast.Attribute) and self.resolve(mod, v) in ("ext:math.inf", "ext:math.nan", "ext:math.pi", "ext:math.e"):
                 return True
             return False
